@@ -723,7 +723,11 @@ func (w *World) Block() bool {
 			continue
 		}
 		if w.R.Chance(w.P.ProbePct) {
-			e.CheckTx(bz, "probe:"+label, spec)
+			if w.R.Chance(25) {
+				e.CheckTx(bz, "recheck-probe:"+label, spec)
+			} else {
+				e.CheckTx(bz, "probe:"+label, spec)
+			}
 			if e.Dead {
 				break
 			}
